@@ -18,12 +18,14 @@ mod gen;
 mod c01;
 mod c03;
 mod c04;
+mod c05;
 mod damage;
 mod disk;
 mod refpdf;
 mod simdisk;
 mod synth;
 mod trace;
+mod view;
 #[path = "m/common.rs"]
 mod common;
 #[path = "m/runner.rs"]
@@ -40,7 +42,7 @@ use runner::*;
 static GLOBAL: alloc::Tracking = alloc::Tracking;
 
 fn props() -> Vec<Box<dyn Property>> {
-    vec![Box::new(c01::C01), Box::new(c03::C03), Box::new(c04::C04), Box::new(c19::C19), Box::new(c20::C20), Box::new(c22::C22), Box::new(c29::C29)]
+    vec![Box::new(c01::C01), Box::new(c03::C03), Box::new(c04::C04), Box::new(c05::C05), Box::new(c19::C19), Box::new(c20::C20), Box::new(c22::C22), Box::new(c29::C29)]
 }
 
 fn find(id: &str) -> Option<Box<dyn Property>> {
@@ -100,7 +102,10 @@ fn main() {
         }
         "gen-case" => {
             let p = find(&args[2]).expect("prop");
-            let cs = arg_val(&args, "--case-seed").and_then(|s| s.parse().ok()).unwrap_or(0);
+            let cs = match arg_val(&args, "--index").and_then(|s| s.parse::<u64>().ok()) {
+                Some(i) => case_seed(seed, p.id(), i),
+                None => arg_val(&args, "--case-seed").and_then(|s| s.parse().ok()).unwrap_or(0),
+            };
             gen_case_main(&*p, tier, cs)
         }
         "replay" => {
